@@ -1,10 +1,11 @@
 \* C48 leg A thorough, family "labels": <= 2 series over labels a in {absent,1,2} x b in {absent,1}; <= 2 requests with
 \* matchers from a pool of 7 (EQ/NEQ/RE/NRE, incl. a="" and negative matchers on missing labels), whole-series and
-\* interval deletions: 11 340 inputs, all handed to leg B.
+\* interval deletions: 6 615 inputs, all handed to leg B.
 SPECIFICATION Spec
 CONSTANTS Family = "labels"
           G = 4
           LTwo = TRUE
+          EmitTwoRequests = TRUE
 INVARIANTS C48_ResultSatisfiesProperty FunctionalFormAgrees
 PROPERTY Progress
 CHECK_DEADLOCK TRUE
